@@ -110,6 +110,15 @@ class C06Runner:
 			self.changed = True
 			self.kinds_seq.append(f"upgrade-{op['what']}")
 			self.log.append(['upgrade', op['what'], op['to']])
+		elif kind == 'reconfigure':
+			# settings change between runs (the statement speaks of "the current sources and settings")
+			self.config = {**self.config, **op['config']}
+			self.proj.config = self.config
+			self.proj.sc.write_config(self.config)
+			self.changed = True
+			self.bump('probes', 'output settings changed between runs')
+			self.kinds_seq.append('reconfigure')
+			self.log.append(['reconfigure', op['config']])
 		elif kind == 'run':
 			self.do_run(i, op)
 		else:
@@ -308,6 +317,33 @@ OUTPUT_FORMS = [
 ]
 
 
+TWIN_SRC = ['def helper(k: int) -> int:\n\treturn k + 1\n', 'def helper(k: int) -> int:\n\tn = k + 2\n\treturn n\n']
+
+
+def add_twins(pool: dict[str, Any], rng: random.Random) -> None:
+	"""Two modules with byte-identical sources in different source directories (same base name)."""
+	dirs = sorted({m.rsplit('.', 1)[0] for m in pool['modules']} | {'src', 'pkg'})
+	a, b = rng.sample(dirs, 2)
+	for m in (f'{a}.util', f'{b}.util'):
+		if m not in pool['variants']:
+			pool['modules'].append(m)
+			pool['variants'][m] = [{'src': src, 'imports': [], 'note': f'twin{n}'} for n, src in enumerate(TWIN_SRC)]
+
+
+def reconfiguration(dirs: list[str], rng: random.Random) -> dict[str, Any]:
+	"""A new output mapping that re-uses the same few output directories for other source directories (rules stay injective at any one time)."""
+	outs = ['out/p0', 'out/p1', 'out/g0', 'out/g1']
+	rng.shuffle(outs)
+	picked = rng.sample(dirs, rng.randint(1, min(len(dirs), 3)))
+	rules = []
+	for d, o in zip(picked, outs):
+		rules.append(f'{d}/:{o}' if o.startswith('out/p') else f'{d}/*:{o}')
+	cfg: dict[str, Any] = {'output_dirs': rules + ['./out/fb']}
+	if rng.random() < 0.3:
+		cfg['output_language'] = rng.choice(['cpp:h', 'cpp', 'cpp:hpp'])
+	return cfg
+
+
 def source_dirs(pool: dict[str, Any]) -> list[str]:
 	dirs = sorted({m.rsplit('.', 1)[0].replace('.', '/') for m in pool['modules']}, key=lambda d: (-len(d), d))
 	return dirs
@@ -358,19 +394,34 @@ class C06(Engine):
 				c([run_op(fault={'kind': 'eacces@open', 'pick': 0.5, 'count': 1}), run_op()])
 				c([run_op(fault={'kind': 'eacces@open', 'pick': 0.5, 'count': 2}), run_op()])
 				c([run_op(True), {'op': 'edit', 'm': top, 'v': 2}, run_op(fault={'kind': 'eacces@open', 'pick': 0.0, 'count': 2}), run_op()])
+		for which in (0, 2):
+			pool = pools.fixed_pool(which)
+			pool['modules'] = pool['modules'] + ['src.util', 'pkg.util']
+			for m in ('src.util', 'pkg.util'):
+				pool['variants'][m] = [{'src': src, 'imports': [], 'note': f'twin{n}'} for n, src in enumerate(TWIN_SRC)]
+			A = {'output_dirs': ['src/:out/p0', './out/fb']}
+			B = {'output_dirs': ['pkg/:out/p0', './out/fb']}
+			cases.append({'pool': pool, 'config': A, 'kind': 'canonical', 'ops': [run_op(), {'op': 'reconfigure', 'config': B}, run_op(), run_op()]})
+			cases.append({'pool': pool, 'config': A, 'kind': 'canonical', 'ops': [run_op(), {'op': 'reconfigure', 'config': {'output_language': 'cpp'}}, run_op(), {'op': 'reconfigure', 'config': {**B, 'output_language': 'cpp:h'}}, run_op()]})
 		return cases
 
 	def generate(self, rng: random.Random, index: int) -> dict[str, Any]:
 		pool = pools.gen_pool(rng)
+		if rng.random() < 0.5:
+			add_twins(pool, rng)
 		mods = pool['modules']
 		dirs = source_dirs(pool)
 		cfg = {'output_dirs': rng.choice(OUTPUT_FORMS)(dirs), 'output_language': rng.choice(['cpp:h', 'cpp', 'cpp:hpp'])}
+		w_reconf = rng.choice([0, 0.5, 1.2])
 		faulty = rng.random() < 0.4
 		w = {'edit': rng.uniform(1, 4), 'run': rng.uniform(2, 4), 'runf': rng.uniform(0.2, 1.5), 'del': rng.uniform(0, 1.2), 'up': rng.uniform(0, 0.8), 'touch': rng.uniform(0, 0.6)}
 		ops: list[dict[str, Any]] = [run_op(rng.random() < 0.3)]
 		vers = {'app': ['1.0.1', '1.1.0', '2.0.0'], 'py2cpp': ['1.0.1', '1.2.0']}
 		for _ in range(rng.randint(3, 12)):
-			r = rng.choices(['edit', 'run', 'runf', 'del', 'up', 'touch'], weights=[w[k] for k in ('edit', 'run', 'runf', 'del', 'up', 'touch')])[0]
+			r = rng.choices(['edit', 'run', 'runf', 'del', 'up', 'touch', 'reconf'], weights=[w[k] for k in ('edit', 'run', 'runf', 'del', 'up', 'touch')] + [w_reconf])[0]
+			if r == 'reconf':
+				ops.append({'op': 'reconfigure', 'config': reconfiguration(dirs, rng)})
+				continue
 			if r == 'edit':
 				m = rng.choice(mods)
 				ops.append({'op': 'edit', 'm': m, 'v': rng.randrange(len(pool['variants'][m])), 'dt': rng.choice([1000, 10**9, 3600 * 10**9])})
